@@ -264,8 +264,9 @@ class Rewriter:
             if toks[i].kind == L.IDENT and toks[i].text == "f64":
                 j = L.skip_trivia(toks, i + 1, n)
                 k = L.skip_trivia(toks, j + 1, n) if j < n else n
-                if j < n and toks[j].text == "::" and k < n and toks[k].text == "NAN":
-                    out.append(L.Tok(L.IDENT, "R::nan()", toks[i].line))
+                assoc = {"NAN": "R::nan()", "EPSILON": "R::epsilon()", "INFINITY": "R::infinity()", "NEG_INFINITY": "R::neg_infinity()"}
+                if j < n and toks[j].text == "::" and k < n and toks[k].text in assoc:
+                    out.append(L.Tok(L.IDENT, assoc[toks[k].text], toks[i].line))
                     self.bump("R8")
                     i = k + 1
                     continue
@@ -884,6 +885,7 @@ class Unit:
                 toks, fp = self.mono_header(toks)
             toks, iter_params = self.drop_iter_generics(toks)
             toks = drop_mono_predicates(toks, fp)
+            toks = self.r6b_local_consts(toks, rel)
             rw = Rewriter(float_param=fp, iter_params=iter_params, consts=getattr(self, "consts", ()))
             toks = rw.run(toks)
             self.bump_rules(rw.counts)
@@ -987,6 +989,39 @@ class Unit:
                                 "contract": spec["clauses"], "file": rel, "lines": [it.first_line, it.last_line],
                                 "clauses": len(spec["clauses"]), "loop_specs": sum(len(v) for v in spec["loops"].values()),
                                 "body_tokens": len(code_toks(body))})
+
+    def r6b_local_consts(self, toks, rel):
+        """R6b: a module-level `const NAME: f64 = <float literal>;` of the same file that the function mentions but the unit does
+        not declare is bound as a local at the start of the body: `let NAME: f64 = <literal>;` (same value, same name)."""
+        known = set(getattr(self, "consts", ()))
+        _, items = self.load(rel)
+        consts = {}
+        for it in items:
+            if it.kind == "const" and it.name not in known:
+                ct = code_toks(it.toks[it.start:it.end])
+                try:
+                    eq = next(i for i, t in enumerate(ct) if t.text == "=")
+                except StopIteration:
+                    continue
+                ty = [t.text for t in ct if t.kind == L.IDENT]
+                val = ct[eq + 1:-1]
+                if len(val) == 1 and is_float_literal(val[0]) and "f64" in ty:
+                    consts[it.name] = val[0].text
+        if not consts:
+            return toks
+        parts = find_fn_parts(toks)
+        used = []
+        for t in toks[parts["body_open"]:]:
+            if t.kind == L.IDENT and t.text in consts and t.text not in used:
+                used.append(t.text)
+        if not used:
+            return toks
+        ins = []
+        for nm in used:
+            ins += L.lex("\n        let %s: f64 = %s;" % (nm, consts[nm]))
+            self.log["rules"]["R6b"] = self.log["rules"].get("R6b", 0) + 1
+        b = parts["body_open"]
+        return toks[:b + 1] + ins + toks[b + 1:]
 
     def r13_and_then(self, toks):
         """R13: `RECV.and_then(|v| BODY)` with a closure literal -> `match RECV { Ok(v) => BODY, Err(e__) => Err(e__) }`
